@@ -115,7 +115,8 @@ pub fn gen_loop(seed: u64, n: usize, family: &str) -> Vec<Scenario> {
             sc.max_inflight = sc.first_ttl + 1;
         }
         let npaths = *pick(&mut rng, &[1, 1, 1, 2, 3]);
-        let maxlen = sc.max_ttl.min(20);
+        // now and then the target lies beyond max-ttl: the hop at max-ttl is the farthest that is ever probed
+        let maxlen = if rng.random_range(0..6) == 0 { sc.max_ttl.saturating_add(6).min(26) } else { sc.max_ttl.min(20) };
         sc.topo = Topo {
             paths: (0..npaths).map(|p| random_path(&mut rng, p, maxlen, true)).collect(),
             ..Topo::default()
@@ -547,4 +548,47 @@ pub fn gen_cfgrun(seed: u64, n: usize) -> Vec<Scenario> {
         out.push(sc);
     }
     out
+}
+
+/// Long runs (C02 / C07): many rounds over a responsive path so that the cumulative sequence offset crosses the
+/// buffer size and the wrap-around point of every regime - IPv6 / UDP / dublin (the sequence rides in the payload
+/// length and is reset when it no longer fits) and the others started close to the largest initial sequence.
+pub fn gen_long(seed: u64, n: usize) -> Vec<Scenario> {
+    let mut v = gen_loop(seed ^ 0x10c6, n, "long");
+    let mut rng = StdRng::seed_from_u64(seed ^ 0x5eed_10c6);
+    for (i, sc) in v.iter_mut().enumerate() {
+        if i % 2 == 0 {
+            sc.proto = "udp".into();
+            sc.strat = "dublin".into();
+            sc.fam = 6;
+            sc.ports = (*pick(&mut rng, &["src", "dest", "both"])).into();
+            sc.privileged = true;
+            sc.packet_size = sc.packet_size.max(48);
+        } else {
+            sc.init_seq = *pick(&mut rng, &[64511, 64300]);
+        }
+        sc.max_ttl = 16;
+        sc.first_ttl = 1;
+        sc.max_inflight = 24;
+        let dist = rng.random_range(6..=12);
+        sc.topo = Topo {
+            paths: vec![Path { hops: (1..dist).map(|k| Hop { addr: 300 + u16::from(k), quote: rng.random_range(0..5), ..Hop::default() }).collect(),
+                dist, target_silent: false, tcp: "synack".into() }],
+            ..Topo::default()
+        };
+        sc.net.loss = 0;
+        sc.net.dup_pct = 0;
+        sc.net.late_pct = 0;
+        sc.net.hop_delay_us = 500;
+        sc.net.jitter_us = 0;
+        sc.read_timeout_us = 1_000;
+        sc.min_round_us = 0;
+        sc.max_round_us = 20_000;
+        sc.grace_us = 1_000;
+        sc.tcp_timeout_us = 20_000;
+        sc.max_rounds = 130;
+        sc.max_samples = 4;
+        sc.snap = "lite".into();
+    }
+    v
 }
